@@ -335,7 +335,7 @@ fn align_remaining_edges(
             }
             let mut delta = 1000;
             if let Some(serif) = edge.serif(edges) {
-                delta = (serif.opos - edge.opos).abs();
+                delta = serif.opos.wrapping_sub(edge.opos).wrapping_abs();
             }
             if delta < 64 + 16 {
                 // delta is only < 1000 if edge.serif_ix is Some(_)
@@ -349,17 +349,18 @@ fn align_remaining_edges(
                     let new_pos = if after.opos == before.opos {
                         before.pos
                     } else {
-                        before.pos
-                            + fixed_mul_div(
-                                edge.opos - before.opos,
-                                after.pos - before.pos,
-                                after.opos - before.opos,
-                            )
+                        before.pos.wrapping_add(fixed_mul_div(
+                            edge.opos.wrapping_sub(before.opos),
+                            after.pos.wrapping_sub(before.pos),
+                            after.opos.wrapping_sub(before.opos),
+                        ))
                     };
                     edges[edge_ix].pos = new_pos;
                 } else {
                     let anchor = &edges[anchor_ix];
-                    let new_pos = anchor.pos + ((edge.opos - anchor.opos + 16) & !31);
+                    let new_pos = anchor
+                        .pos
+                        .wrapping_add(edge.opos.wrapping_sub(anchor.opos).wrapping_add(16) & !31);
                     edges[edge_ix].pos = new_pos;
                 }
             } else {
@@ -408,12 +409,11 @@ fn align_remaining_edges(
                     if after.fpos == before.fpos {
                         edges[edge_ix].pos = before.pos;
                     } else {
-                        edges[edge_ix].pos = before.pos
-                            + fixed_mul_div(
-                                edge.fpos as i32 - before.fpos as i32,
-                                after.pos - before.pos,
-                                after.fpos as i32 - before.fpos as i32,
-                            );
+                        edges[edge_ix].pos = before.pos.wrapping_add(fixed_mul_div(
+                            edge.fpos as i32 - before.fpos as i32,
+                            after.pos.wrapping_sub(before.pos),
+                            after.fpos as i32 - before.fpos as i32,
+                        ));
                     }
                 }
                 _ => {}
